@@ -70,7 +70,7 @@ def run(pid, tier):
             'Beta<f32> (Cheng BB and BC, both parameter orders, both sides of min(a,b) = 1): the LAW is decided as an exact ticket count over the 2^24 x 2^24 lattice of proposal and acceptance word '
             '(output = function of the proposal word, acceptance region = prefix of the acceptance lattice, both checked by probes) against the regularised incomplete beta function at the anchors of '
             'spec/BetaTable.tla (mpmath), slack 2^-20; Beta<f64> is NOT decided (2^53 proposal values cannot be enumerated)',
-            'ONLY the composition layer is decided for the remaining families: ChiSquared, StudentT, FisherF, Pert, Exp, Gamma(shape <= 1), Normal(0,1) are the documented functions of the crate\'s own primitives '
+            'ONLY the composition layer is decided for the remaining families: ChiSquared, StudentT, FisherF, Pert, Exp, Gamma(shape <= 1), Normal(0,1), SkewNormal, InverseGaussian (plus its measured root-selection probability), NormalInverseGaussian are the documented functions of the crate\'s own primitives '
             '(StandardNormal, Exp1, Gamma with shape > 1, Beta) evaluated with the public API on a clone of the stream',
             'NOT decided: the laws of the primitives themselves (ziggurat: structure only, C06; Marsaglia-Tsang, Cheng BB/BC, Michael-Schucany-Haas, the inverse-CDF one-liners) and of every family not listed; '
             'no density, CDF or tail probability is evaluated anywhere (TLC cannot; DESIGN 3)',
